@@ -140,6 +140,28 @@ impl Agg {
 /// C15 oracle on a non-empty digest (reads are performed on `d`, pass a clone to keep the
 /// original's backlog untouched). Returns (signature, message) of the first failure.
 pub fn c15_oracle(d: &Dg, agg: &Agg, nq: usize, nx: usize, evals: &mut u64) -> Option<(String, String)> {
+    // the answer must not depend on which read comes first: on fresh clones (pending backlog included) cdf / quantile as the
+    // very first read are compared bit for bit with the same call made after count() has forced the merge
+    for x in [-3.0, 0.7, 2.5, 1e9] {
+        let (a, b) = (d.clone(), d.clone());
+        let first = a.cdf(x);
+        let _ = b.count();
+        let later = b.cdf(x);
+        *evals += 2;
+        if first.to_bits() != later.to_bits() {
+            return Some(("cdf depends on the order of reads".into(), format!("cdf({}) as the first read of the digest = {}, after count() = {}", x, first, later)));
+        }
+    }
+    for q in [0.0, 0.3, 1.0] {
+        let (a, b) = (d.clone(), d.clone());
+        let first = a.quantile(q);
+        let _ = b.count();
+        let later = b.quantile(q);
+        *evals += 2;
+        if first.to_bits() != later.to_bits() {
+            return Some(("quantile depends on the order of reads".into(), format!("quantile({}) as the first read of the digest = {}, after count() = {}", q, first, later)));
+        }
+    }
     if !agg.positive {
         // an empty digest returns NaN / 0 for every argument, the end points and infinities included
         for q in [0.0, 0.25, 0.5, 1.0] {
